@@ -175,6 +175,9 @@ func checkC09(c *Ctx) {
 	c.importRules(noSharedStateRules, []string{"R16.5"}, "R9.10") // loading is a function of the files: no package-level state written at run time
 	ruleDecoderGuard(c, fns)
 	ruleTermination(c, fns)
+	if lh := c.P.Func(pkgMain, "", "LoadHIDIConfig"); lh != nil {
+		ruleLogBound(c, "R9.11", lh) // a log write is a send into a fixed-size channel: before the consumer exists their number must not be file-driven
+	}
 	// (errors are returned by the functions that turn ONE file into a configuration; the directory loader above them reports
 	// a file's error and goes on with the next file - that is C12's isolation)
 	var loaderOnly = map[*ssa.Function]bool{}
